@@ -37,6 +37,18 @@ def strat():
     return st.fixed_dictionaries({"program": P.program_strategy(cfg()), "pre_list": st.booleans()})
 
 
+def cfg_dense():
+    """Few qubits, many small sibling sub-circuits: the shapes in which sub-circuits become interchangeable."""
+    return P.GenCfg(kinds=["Wait", "Wait", "Rx180", "CPhase", "Barrier", "DispersiveMeasure", "Reset", "VirtualPark"], nq=3,
+                    max_items=4, max_depth=2, p_sub=55, p_rel=25, max_reps=3, top_reps=False, globals_=False,
+                    max_total_leaves=40)
+
+
+def strat_dense():
+    from hypothesis import strategies as st
+    return st.fixed_dictionaries({"program": P.program_strategy(cfg_dense()), "pre_list": st.sampled_from([True, True, False])})
+
+
 def simple_blocks(root: M.MCirc):
     """Paths of repeated sub-circuits for which the n*T clause applies (judged on the resolved, scheduled model)."""
     out = {}
@@ -233,6 +245,7 @@ def body_library(case, ctx):
 
 def parts():
     return [
+        Part("dense_nesting", body, strategy=strat_dense, quick=1500, thorough=4000),
         Part("programs", body, strategy=strat, quick=800, thorough=4000),
         Part("library", body_library, items=items_library),
     ]
